@@ -188,8 +188,9 @@ func DecodeClaimsFromCBOR(buf []byte) (IClaims, error) {
 	}
 
 	// CBOR null / undefined "decode" into any Go value without an error
-	// (they reset the pointer), but they are not a claims map
-	if selector == nil {
+	// (bare, they reset the pointer; tagged, they are a no-op), but they
+	// are not a claims map
+	if selector == nil || !isCBORMap(buf) {
 		return nil, errors.New("CBOR claims-set must be a map, found null or undefined")
 	}
 
@@ -205,6 +206,23 @@ func DecodeClaimsFromCBOR(buf []byte) (IClaims, error) {
 	}
 
 	return claims, nil
+}
+
+// isCBORMap reports whether the well-formed CBOR data item in buf is a map,
+// possibly wrapped in tags.
+func isCBORMap(buf []byte) bool {
+	for len(buf) > 0 && buf[0]>>5 == 6 { // skip the tag head(s)
+		n := 1
+		if ai := buf[0] & 0x1f; ai >= 24 {
+			n += 1 << (ai - 24) // 1, 2, 4 or 8 bytes of tag number
+		}
+		if len(buf) < n {
+			return false
+		}
+		buf = buf[n:]
+	}
+
+	return len(buf) > 0 && buf[0]>>5 == 5
 }
 
 // Deprecated: use DecodeAndValidateClaimsFromJSON instead.
